@@ -84,6 +84,52 @@ def negated(quick):
     return out
 
 
+def S(conds, prod, sf=None, gate=None, form="list"):
+    r = D(conds, form=form)
+    r.update(prod=prod, sf=sf, gate=gate)
+    return r
+
+
+# rules for the pipeline "state": (logsource product, field, gate)
+ST = [S(["ok"], "alpha", "src"),                      # mapped, fine (index A)
+      S(["ok"], "beta", "dst", "strict"),            # unmapped field under the strict gate: fails on its own
+      S(["ok", "ph"], "alpha", "src", "strict"),     # mapped, passes the gate, fails later at the placeholder
+      S(["ok"], "beta", None, "gstate"),             # fine unless the state of an alpha rule is still there
+      S(["ok", "ok"], "beta", "dst"),                # fine, two conditions (index default)
+      S(["ok"], "alpha", "src", "strict"),           # mapped, fine
+      S(["ok"], "beta", "src", "strict"),            # not mapped for beta: fails
+      S(["ok"], "alpha", None, "gstate"),            # fails
+      S(["ok"], "beta", None, "gapplied"),           # fine
+      S(["ok"], "alpha", "dst", "strict"),           # alpha but the field is not the mapped one: fails
+      S(["ok"], "alpha", None, "gapplied")]          # fails
+
+
+def stateful(quick):
+    """pipeline items whose decision reads per-rule pipeline state (strict field mapping failure behind a conditional
+    mapping, rule_failure behind a state condition / an applied-item condition, the state shown by the output format):
+    every sequence (hence every order) of the rules involved"""
+    out = []
+    for n in (1, 2):
+        for t in itertools.product(ST, repeat=n):
+            out.append(mk(t, "state", "state", True))
+            if not quick or n == 1:
+                out.append(mk(t, "state", "test", False))
+    for t in itertools.product(ST[:5] if quick else ST[:8], repeat=3):
+        out.append(mk(t, "state", "state", True))
+    if not quick:
+        for t in itertools.product(ST[:5], repeat=4):
+            out.append(mk(t, "state", "state", True))
+        for t in itertools.product(ST[:5], repeat=3):
+            out.append(mk(t, "state", "default", False))
+    # correlation rules: the conditions look through them at the rules they refer to
+    for a in ST[:5] if quick else ST:
+        for b in ST[:5] if quick else ST:
+            for g in (True, False):
+                out.append(mk([a, b, Cr([0], g), Cr([1, 0], not g)], "state", "state", True))
+                out.append(mk([a, Cr([0], g), b, Cr([1], g), ST[3]], "state", "state", True))
+    return out
+
+
 def with_fields(rules, rng=None):
     out = []
     for i, r in enumerate(rules):
@@ -225,6 +271,8 @@ def gen(tier, rng):
                         out.append(mk(list(t) + [Cr(refs, g), Cr([n, 0], g, "ok")], True, "default", True, fcs=not g))
     # 3b. correlation rules interleaved with detection rules
     out += interleaved(quick)
+    # 3d. decisions on per-rule pipeline state
+    out += stateful(quick)
     # 3c. negated selections, convert_not_as_not_eq
     out += negated(quick)
     # 4. random collections of 1..6 rules (+ up to 3 correlation rules at random positions), any subset failing
@@ -233,17 +281,85 @@ def gen(tier, rng):
         p = rng.random() < 0.7
         pfail = rng.choice([0.0, 0.2, 0.5, 0.8])
         rules = [random_rule(rng, p, pfail) for _ in range(n)]
+        if p and rng.random() < 0.25:
+            p = "state"
+            rules = [copy.deepcopy(rng.choice(ST)) if rng.random() < 0.7 else r for r in rules]
         if rng.random() < 0.5:
             rules = add_correlations(rules, rng, rng.randint(1, 3))
         if rng.random() < 0.1 and len(rules) > 1:      # the coordinator's shape: base, emitting correlation, failing, two-condition
             rules = insert_rule(rules, 1, Cr([0], rng.random() < 0.5))
-        out.append(mk(rules, p, rng.choice(["test", "default"]), rng.random() < 0.7, fcs=rng.random() < 0.2, rng=rng,
+        out.append(mk(rules, p, rng.choice(["test", "default", "state"]), rng.random() < 0.7, fcs=rng.random() < 0.2, rng=rng,
                       noteq=rng.random() < 0.4))
     return out
 
 
 # ---- expected per-rule outcome, read off the rule source (the model's conv1) ------------------------------
+FIELDS = ["fieldA", "f", "fieldC", "g h"]
+
+
+def rule_fields(r):
+    name = r.get("sf") or FIELDS[r.get("fld", 0)]
+    out = set()
+    for c in r["conds"]:
+        b = base_kind(c)
+        if b in ("ok", "ph", "cond"):
+            out.add(name)
+        elif b in ("gok", "gph"):
+            out |= {name, "y"}
+    return out
+
+
+def trans_dets(case, i):
+    """detection rules a correlation rule refers to, directly or through other correlation rules"""
+    seen, out = set(), []
+    def go(j):
+        if j in seen:
+            return
+        seen.add(j)
+        r = case["rules"][j]
+        if r["k"] == "d":
+            out.append(r)
+        else:
+            for x in r["refs"]:
+                go(x)
+    for x in case["rules"][i]["refs"]:
+        go(x)
+    return out
+
+
+def state_gate_fails(r):
+    """pipeline "state" (impl/c08.py): decisions that read per-rule pipeline state"""
+    alpha = r.get("prod") == "alpha"
+    g = r.get("gate")
+    if g == "strict":       # every field must have been mapped by the alpha-only mapping src -> dst
+        # (fieldA is mapped by the backend's own pipeline, which runs first)
+        return not all((f == "src" and alpha) or f == "fieldA" for f in rule_fields(r))
+    if g in ("gstate", "gapplied"):   # state index == A / item map_alpha applied: both only for alpha rules
+        return alpha
+    return False
+
+
+def index_of(case, i):
+    r = case["rules"][i]
+    if case["pipe"] == "state":
+        ds = [r] if r["k"] == "d" else trans_dets(case, i)
+        return "A" if any(d.get("prod") == "alpha" for d in ds) else "default"
+    return "win" if case["pipe"] else "default"
+
+
+def expected_c_pre(case, i):
+    r = case["rules"][i]
+    pipe = case["pipe"]
+    if pipe == "state":
+        ds = trans_dets(case, i)
+        if any(d.get("prod") == "alpha" for d in ds) and any(d.get("gate") in ("gstate", "gapplied") for d in ds):
+            return "(SigmaErr 8)"
+    return "(SigmaErr 8)" if pipe and r["stage"] == "pipe" else "(Crash 1)" if pipe and r["stage"] == "crash" else "(Ok tt)"
+
+
 def expected_d(r, pipe):
+    if pipe == "state" and state_gate_fails(r):
+        return ("err", 8)
     if pipe and r["stage"] == "pipe":
         return ("err", 8)
     if pipe and r["stage"] == "crash":
@@ -270,24 +386,24 @@ def coutcome(r, key="q"):
 
 def to_coq(c, r):
     if "exc" in r and "res" not in r:     # the runner itself failed: never acceptable
-        return f"({{| k_test := false; k_pipe := false |}}, false, false, ([] : list (rule dr cr)), (Crash 96 : outcome (list str)), ([] : list (nat * N)), false, ([] : list (outcome (list str))), ([] : list nat))"
+        return f"({{| k_fmt := 0; k_pipe := false |}}, false, false, ([] : list (rule dr cr)), (Crash 96 : outcome (list str)), ([] : list (nat * N)), false, ([] : list (outcome (list str))), ([] : list nat))"
     pipe = bool(c["pipe"])
     rules = []
     for i, ru in enumerate(c["rules"]):
         fin = cbool(pipe and ru["stage"] == "fin")
         if ru["k"] == "d":
-            kind, cls = expected_d(ru, pipe)
+            kind, cls = expected_d(ru, c["pipe"])
             if kind == "ok":
                 raw = "(Ok " + clist(cstr(q) for q in r["alone"][i].get("raw", []) if isinstance(q, str)) + ")"
             elif kind == "err":
                 raw = f"(SigmaErr {cls})"
             else:
                 raw = f"(Crash {cls})"
-            rules.append(f"Det {{| d_raw := {raw}; d_finfail := {fin} |}}")
+            rules.append(f"Det {{| d_raw := {raw}; d_finfail := {fin}; d_index := {cstr(index_of(c, i))} |}}")
         else:
-            pre = "(SigmaErr 8)" if pipe and ru["stage"] == "pipe" else "(Crash 1)" if pipe and ru["stage"] == "crash" else "(Ok tt)"
+            pre = expected_c_pre(c, i)
             names = clist(cstr("r%d" % j) for j in ru["refs"])
-            rules.append(f"Cor {{| c_pre := {pre}; c_names := {names}; c_finfail := {fin} |}} "
+            rules.append(f"Cor {{| c_pre := {pre}; c_names := {names}; c_finfail := {fin}; c_index := {cstr(index_of(c, i))} |}} "
                          f"{clist(cnat(j) for j in ru['refs'])} {cbool(ru['gen'])}")
     res = r["res"]
     ires = coutcome(res) if isinstance(res, dict) else coutcome({"q": res})
@@ -295,7 +411,7 @@ def to_coq(c, r):
     order_ok = cbool(r["order"] == list(range(len(c["rules"]))))
     al = clist(coutcome(a) for a in r["alone"])
     ncs = clist(cnat(len(ru['conds']) if ru['k'] == 'd' and (ru.get('form', 'list') == 'list') else 1) for ru in c['rules'])
-    K = f"{{| k_test := {cbool(c['fmt'] == 'test')}; k_pipe := {cbool(pipe)} |}}"
+    K = f"{{| k_fmt := {dict(default=0, test=1, state=2)[c['fmt']]}; k_pipe := {cbool(pipe)} |}}"
     return f"({K}, {cbool(c.get('fcs', False))}, {cbool(c['collect'])}, ({clist(rules)} : list (rule dr cr)), ({ires} : outcome (list str)), ({ierrs} : list (nat * N)), {order_ok}, ({al} : list (outcome (list str))), ({ncs} : list nat))"
 
 
@@ -325,7 +441,7 @@ def mutate(c, rng):
                 d = copy.deepcopy(c)
                 d["rules"][i]["conds"] = conds
                 out.append(d)
-    for key, vals in (("collect", (True, False)), ("pipe", (True, False)), ("fmt", ("test", "default")), ("fcs", (True, False)),
+    for key, vals in (("collect", (True, False)), ("pipe", (True, False)), ("fmt", ("test", "default", "state")), ("fcs", (True, False)),
                       ("noteq", (True, False))):
         for v in vals:
             if c.get(key) != v:
@@ -363,6 +479,9 @@ PROPERTY = Property(
          "position; backend classes with convert_not_as_not_eq (a new class per backend object): every sequence of length <= 3 (thorough 4) over "
          "{fine plain, fine two-condition, fine negated, placeholder below NOT, placeholder in a group below NOT after a comparison "
          "that rendered negated, keyword boolean below NOT}, further negated variants at every position among fine rules, with "
+         "correlation rules; a pipeline whose items decide on per-rule pipeline state (strict_field_mapping_failure behind a product-conditional "
+         "mapping, rule_failure behind a processing-state condition and behind an applied-item condition, output format 'state' showing "
+         "the state): every sequence of length <= 2 over 11 rule kinds and of length 3 (thorough also 4) over the first 5 (8), with "
          "correlation rules; random collections of 1..6 rules + up to 3 correlation rules at random dependency-respecting positions. Oracle: fresh backend, fresh pipeline, freshly parsed rule for every rule on its "
          "own. Only dependency-respecting document orders (a correlation rule after the rules it names; other orders are C09). "
          "non-trivial = some rule fails or a correlation rule is present; distinct by case hash",
